@@ -213,6 +213,7 @@ func runC01Multi(c *Ctx, w *ATWorld) {
 				}
 			}
 			st.Spell = []int{0, 0, 1, 3}[r.Intn(4)]
+			st.Alias = (i+k)%3 == 0 // (some statements of the batch name the table with an alias, others do not)
 			sc.DBName = w.DBName
 			q, _, _ := st.Render(sc)
 			parts = append(parts, q)
